@@ -3984,35 +3984,30 @@ impl<'a> ZonedDifference<'a> {
         let tz = zdt1.time_zone();
 
         let (dt1, mut dt2) = (zdt1.datetime(), zdt2.datetime());
+        // When both datetimes are on the same civil day, the difference is
+        // purely a difference in elapsed time. (This matches Temporal's
+        // `DifferenceZonedDateTime`. Without it, two instants on either side
+        // of a fold on the same civil day could produce a span whose date
+        // and time components have opposite signs.)
+        //
+        // The same applies in the (rare) case where the civil dates are
+        // ordered differently than the instants, which can happen when a
+        // fold straddles midnight.
+        if t::sign(dt2.date(), dt1.date()) != sign {
+            return zdt1.timestamp().until((Unit::Hour, zdt2.timestamp()));
+        }
 
         let mut day_correct: t::SpanDays = C(0).rinto();
         if -sign == dt1.time().until_nanoseconds(dt2.time()).signum() {
             day_correct += C(1);
         }
-
-        let mut mid = dt2
-            .date()
-            .checked_add(Span::new().days_ranged(day_correct * -sign))
-            .with_context(|| {
-                err!(
-                    "failed to add {days} days to date in {dt2}",
-                    days = day_correct * -sign,
-                )
-            })?
-            .to_datetime(dt1.time());
-        let mut zmid: Zoned = mid.to_zoned(tz.clone()).with_context(|| {
-            err!(
-                "failed to convert intermediate datetime {mid} \
-                     to zoned timestamp in time zone {tz}",
-                tz = tz.diagnostic_name(),
-            )
-        })?;
-        if t::sign(zdt2, &zmid) == -sign {
-            if sign == C(-1) {
-                panic!("this should be an error");
-            }
-            day_correct += C(1);
-            mid = dt2
+        // The intermediate datetime (the end date with the start time) can
+        // land in a gap or a fold, and after disambiguation it can overshoot
+        // the end instant. When that happens, we back off by one more day.
+        // Temporal bounds the number of corrections by 2.
+        let max_day_correct: t::SpanDays = C(2).rinto();
+        let (mid, zmid) = loop {
+            let mid = dt2
                 .date()
                 .checked_add(Span::new().days_ranged(day_correct * -sign))
                 .with_context(|| {
@@ -4022,17 +4017,34 @@ impl<'a> ZonedDifference<'a> {
                     )
                 })?
                 .to_datetime(dt1.time());
-            zmid = mid.to_zoned(tz.clone()).with_context(|| {
-                err!(
-                    "failed to convert intermediate datetime {mid} \
+            // If the intermediate datetime is the start datetime itself,
+            // then there are no calendar units in the result, and adding
+            // the span back to the start will not go through the civil
+            // datetime. So we use the start instant itself, which can differ
+            // from the disambiguated intermediate datetime when the start
+            // is the later instant in a fold.
+            let zmid: Zoned = if mid == dt1 {
+                zdt1.clone()
+            } else {
+                mid.to_zoned(tz.clone()).with_context(|| {
+                    err!(
+                        "failed to convert intermediate datetime {mid} \
                          to zoned timestamp in time zone {tz}",
-                    tz = tz.diagnostic_name(),
-                )
-            })?;
-            if t::sign(zdt2, &zmid) == -sign {
-                panic!("this should be an error too");
+                        tz = tz.diagnostic_name(),
+                    )
+                })?
+            };
+            if t::sign(zdt2, &zmid) != -sign {
+                break (mid, zmid);
             }
-        }
+            if day_correct >= max_day_correct {
+                return Err(err!(
+                    "failed to find an intermediate datetime between \
+                     {zdt1} and {zdt2} that does not overshoot",
+                ));
+            }
+            day_correct += C(1);
+        };
         let remainder_nano = zdt2.timestamp().as_nanosecond_ranged()
             - zmid.timestamp().as_nanosecond_ranged();
         dt2 = mid;
